@@ -2,6 +2,7 @@
 use mc_core::Ctx;
 
 mod c39;
+mod util;
 mod c40;
 
 fn main() {
